@@ -267,6 +267,29 @@ Fixpoint seval (e : expr) (fr : frame) (g : glob) {struct e} : res eout :=
       | Res (EV v) fr g => seval_arms v m fr g
       | r => r
       end
+  | ECallN f a xs b =>                                (* positional, then named in source order; value first, then the name check *)
+      match find_fun funs f with
+      | None => Res (EX (err "undefined function")) fr g
+      | Some d =>
+          match seval_args a fr g with
+          | Res (inl vs) fr g =>
+              match seval_nargs (named_ok_impl (fparams d) vs) xs [] b fr g with
+              | Res (inl nvs) fr g =>
+                  match arrange_impl (fparams d) vs nvs with
+                  | Some full =>
+                      match callf (CFun f) full g with
+                      | Some (o, g') => Res o fr g'
+                      | None => Fuel
+                      end
+                  | None => Res (EX (err "argument not passed")) fr g
+                  end
+              | Res (inr x) fr g => Res (EX x) fr g
+              | Fuel => Fuel
+              end
+          | Res (inr x) fr g => Res (EX x) fr g
+          | Fuel => Fuel
+          end
+      end
   end
 with seval_args (a : args) (fr : frame) (g : glob) {struct a} : res (list value + value) :=
   match a with
@@ -304,6 +327,25 @@ with seval_conds (v : value) (c : args) (fr : frame) (g : glob) {struct c} : res
       | Res (EV w) fr g => if same_value v w then Res (inl true) fr g else seval_conds v r fr g
       | Res (EX x) fr g => Res (inr x) fr g
       | Fuel => Fuel
+      end
+  end
+(* the named arguments in source order: the value is computed, then the name is checked against what is
+   bound so far ([ok]); the first offending name ends the call with an Error *)
+with seval_nargs (ok : string -> list (string * value) -> bool) (xs : list string) (seen : list (string * value))
+                 (b : args) (fr : frame) (g : glob) {struct b} : res (list (string * value) + value) :=
+  match b with
+  | ANil => Res (inl seen) fr g
+  | ACons e r =>
+      match xs with
+      | [] => Res (inl seen) fr g
+      | x :: xr =>
+          match seval e fr g with
+          | Res (EV v) fr g =>
+              if ok x seen then seval_nargs ok xr (seen ++ [(x, v)])%list r fr g
+              else Res (inr (err "named parameter")) fr g
+          | Res (EX w) fr g => Res (inr w) fr g
+          | Fuel => Fuel
+          end
       end
   end.
 
